@@ -49,7 +49,8 @@ text_s = st.one_of(
     st.integers(20000, 100000).map(lambda n: "L" * n),
 )
 tags_s = st.one_of(st.none(), st.lists(st.sampled_from(["result", "uds", "read", "write", "ANALYZE", "ü"]), max_size=3))
-record_s = st.fixed_dictionaries({"msg": text_s, "level": st.sampled_from(LEVELS), "tags": tags_s, "exc": st.integers(0, 9).map(lambda x: x == 0)})
+record_s = st.fixed_dictionaries({"msg": text_s, "level": st.sampled_from(LEVELS), "tags": tags_s, "exc": st.integers(0, 9).map(lambda x: x == 0),
+                                  "lazy": st.integers(0, 7).map(lambda x: x == 0)})
 
 
 @st.composite
@@ -96,6 +97,13 @@ def write_log(case: dict[str, Any], d: Path) -> tuple[Path, list[dict[str, Any]]
                     raise ValueError("boom ☃")
                 except ValueError:
                     lg.log(r["level"], r["msg"], extra=extra, exc_info=True)
+            elif r.get("lazy"):
+                # lazy %-formatting with a mutable argument that the caller goes on using: the record holds the text as it was when
+                # the call was made
+                buf = [r["msg"]]
+                lg.log(r["level"], "pending: %s", buf, extra=extra)
+                buf.append("changed-after-the-call")
+                buf[0] = "overwritten"
             else:
                 lg.log(r["level"], r["msg"], extra=extra)
     finally:
